@@ -57,6 +57,14 @@ def seg_ordered(g, stack, pos, lo, hi):
               g.R(g.at(stack.at(i), j), stack.at(i)))), patterns=[g.at(stack.at(i), j)])
 
 
+def p_closed(g, P):
+    """ghost set P is closed under the edges of g (P is chosen by the caller:
+    "result within P for every closed P containing the start" is the usable,
+    first-order form of "only reachable vertices are returned")"""
+    return z3.ForAll([x, j], z3.Implies(z3.And(P.has(x), 0 <= j, j < g.n(x)), P.has(g.at(x, j))),
+                     patterns=[g.at(x, j)])
+
+
 def old_part_kept(old_stack, old_pos, stack, pos):
     return z3.And(
         stack.hi == old_stack.hi, stack.lo <= old_stack.lo,
@@ -76,6 +84,8 @@ def dfs_requires():
         ("grey-reaches-source", lambda s: z3.ForAll([x], z3.Implies(s.grey.has(x), s.graph.R(x, s.source.t)),
                                                      patterns=[s.grey.has(x)])),
         ("stack-bounds", lambda s: s.stack.lo <= s.stack.hi),
+        ("P-has-source", lambda s: s.P.has(s.source)),
+        ("P-closed", lambda s: p_closed(s.graph, s.P)),
     ]
 
 
@@ -94,6 +104,8 @@ def dfs_ensures():
         ("order", lambda o, n, r: seg_ordered(o.graph, n.stack, n.pos, n.stack.lo, o.stack.lo)),
         ("soundness", lambda o, n, r: z3.ForAll([i], z3.Implies(
             z3.And(n.stack.lo <= i, i < o.stack.lo), o.graph.R(o.source.t, n.stack.at(i))), patterns=[n.stack.at(i)])),
+        ("new-in-P", lambda o, n, r: z3.ForAll([i], z3.Implies(
+            z3.And(n.stack.lo <= i, i < o.stack.lo), o.P.has(n.stack.at(i))), patterns=[n.stack.at(i)])),
     ]
 
 
@@ -118,6 +130,9 @@ def dfs_loop_inv():
             patterns=[c(L).stack.at(i)])),
         ("done-neighbours-visited", lambda L: z3.ForAll([j], z3.Implies(
             z3.And(0 <= j, j < L.k), c(L).visited.has(L.at(j))), patterns=[L.at(j)])),
+        ("new-in-P", lambda L: z3.ForAll([i], z3.Implies(
+            z3.And(c(L).stack.lo <= i, i < o(L).stack.lo), o(L).P.has(c(L).stack.at(i))),
+            patterns=[c(L).stack.at(i)])),
         ("loop-index", lambda L: z3.And(0 <= L.k, L.k <= L.n)),
     ]
 
@@ -131,13 +146,13 @@ def _ghost_push(ns, st):
 DFS = Contract(
     module=M, qualname="_dfs",
     params=dict(graph=TGraph, source=TV, stack=TDeque(TV), visited=TSet),
-    ghost=dict(grey=TSet, pos=TCount),
+    ghost=dict(grey=TSet, pos=TCount, P=TSet),
     requires=dfs_requires(),
     ensures=dfs_ensures(),
     modifies=("stack", "visited", "pos"),
     loops={0: LoopSpec(anchor="graph.get(source, [])", invariants=dfs_loop_inv(), modifies=("pos",))},
     call_ghost={("_dfs", None): lambda st, pre: dict(
-        grey=PySet(z3.Store(pre.grey.arr, pre.source.t, z3.BoolVal(True))), pos=st.pos)},
+        grey=PySet(z3.Store(pre.grey.arr, pre.source.t, z3.BoolVal(True))), pos=st.pos, P=pre.P)},
     extra=dict(ghost_after={"stack.appendleft(source)": _ghost_push},
                ghost_writeback={"pos": "pos"}),
     min_obligations=30,
@@ -171,6 +186,8 @@ def topo_ensures():
             z3.And(n.stack.lo <= i, i < n.stack.hi),
             z3.Exists([y], z3.And(o.start.has(y), o.graph.R(y, n.stack.at(i))))), patterns=[n.stack.at(i)])),
         ("dependency-order", lambda o, n, r: seg_ordered(o.graph, n.stack, n.pos, n.stack.lo, n.stack.hi)),
+        ("within-P", lambda o, n, r: z3.ForAll([i], z3.Implies(
+            z3.And(n.stack.lo <= i, i < n.stack.hi), o.P.has(n.stack.at(i))), patterns=[n.stack.at(i)])),
     ]
 
 
@@ -188,19 +205,24 @@ def topo_loop_inv():
             patterns=[c(L).stack.at(i)])),
         ("done-start-visited", lambda L: z3.ForAll([j], z3.Implies(
             z3.And(0 <= j, j < L.k), c(L).visited.has(L.at(j))), patterns=[L.at(j)])),
+        ("within-P", lambda L: z3.ForAll([i], z3.Implies(
+            z3.And(c(L).stack.lo <= i, i < c(L).stack.hi), o(L).P.has(c(L).stack.at(i))),
+            patterns=[c(L).stack.at(i)])),
     ]
 
 
 TOPOSORT = Contract(
     module=M, qualname="toposort",
     params=dict(graph=TGraph, start=TSet),
-    ghost=dict(pos=TCount, stack=TDeque(TV)),          # `stack` is a local; exposed as ghost *output* for callers
+    ghost=dict(pos=TCount, stack=TDeque(TV), P=TSet),   # `stack` is a local; exposed as ghost *output* for callers
     result=TSeq(TV),
-    requires=[],
+    requires=[("P-has-start", lambda s: z3.ForAll([x], z3.Implies(s.start.has(x), s.P.has(x)),
+                                                  patterns=[s.start.has(x)])),
+              ("P-closed", lambda s: p_closed(s.graph, s.P))],
     ensures=topo_ensures(),
     modifies=("pos", "stack"),
     loops={0: LoopSpec(anchor="start", invariants=topo_loop_inv(), modifies=("pos",))},
-    call_ghost={("_dfs", None): lambda st, pre: dict(grey=PySet.empty(), pos=st.pos)},
+    call_ghost={("_dfs", None): lambda st, pre: dict(grey=PySet.empty(), pos=st.pos, P=pre.P)},
     extra=dict(ghost_writeback={"pos": "pos"}, ghost_out=("pos", "stack"), importable=True,
                param_note="start is declared a set: the None default (whole graph) is not used by Manager.set_value"),
     min_obligations=15,
